@@ -211,12 +211,12 @@ def _unescape_tla(s):
     return s.replace('\\"', '"').replace('\\\\', '\\')
 
 
-def tlc_gen(ctx, module, cfg, out_path, timeout=900, simulate=None, workers=None, tag="TR", dedupe=True):
+def tlc_gen(ctx, module, cfg, out_path, timeout=900, simulate=None, workers=None, tag="TR", dedupe=True, extra=()):
     """Runs a Gen config; extracts the behaviours printed as <<"TR", "json">> into out_path.
     simulate=(num, depth) uses random simulation instead of BFS."""
     md = tempfile.mkdtemp(prefix="tlcmd.", dir=ctx.workdir)
     raw = out_path + ".raw"
-    args = ["-workers", str(workers or NPROC), "-metadir", md, "-config", cfg]
+    args = list(extra) + ["-workers", str(workers or NPROC), "-metadir", md, "-config", cfg]
     if simulate:
         num, depth = simulate
         args += ["-simulate", "num=%d" % num, "-depth", str(depth), "-seed", str(ctx.seed)]
